@@ -543,11 +543,16 @@ class ASTListener(ModelicaListener):
             if import_list is not None:
                 package_name = import_clause.components.pop()
                 # Append list of names to package_name to get fully qualified name(s)
-                # Skip the comma separators in import_list.children
-                for ident in import_list.children[::2]:
-                    qualified_name = package_name.concatenate(
-                        package_name.from_string(ident.getText())
-                    )
+                # The grammar rule is recursive (IDENT (',' import_list)*), collect
+                # the names of all levels
+                idents = []
+                pending = [import_list]
+                while pending:
+                    current = pending.pop(0)
+                    idents.append(current.IDENT().getText())
+                    pending = list(current.import_list()) + pending
+                for ident in idents:
+                    qualified_name = package_name.concatenate(package_name.from_string(ident))
                     import_clause.components.append(qualified_name)
             elif ctx.getChildCount() > 3:
                 import_clause.unqualified = True
@@ -771,7 +776,8 @@ class ASTListener(ModelicaListener):
         self.ast[ctx] = self.ast[ctx.string_comment()]
 
     def exitString_comment(self, ctx: ModelicaParser.String_commentContext):
-        self.ast[ctx] = ctx.getText()[1:-1]
+        # A comment can be written as a concatenation: "part one" + "part two"
+        self.ast[ctx] = "".join(s.getText()[1:-1] for s in ctx.STRING())
 
     # ANNOTATIONS ==========================================================
 
